@@ -614,4 +614,14 @@ def shared_curve(repo: Repo) -> RuleRun:
 shared_curve.rule_id = "C07.SHARED-CURVE"
 
 
-RULES = [kind_registry, dedup, direction, reversal, face_edge_slots, curve_direction, edge_slots, length_direction, arc_side, validity_tolerance, own_edge_data, no_memo, reflex_midpoint, arguments_untouched, beam_list, shared_curve]
+def collinearity_scale_free(repo: Repo) -> RuleRun:
+    """'collinear-arc edges omitted, all others written' - for a model of any size. Same rule as C08.COLLINEARITY-SCALE-FREE."""
+    from . import c08
+
+    return c08.collinearity_scale_free(repo, PROP, "C07.COLLINEARITY-SCALE-FREE")
+
+
+collinearity_scale_free.rule_id = "C07.COLLINEARITY-SCALE-FREE"
+
+
+RULES = [kind_registry, dedup, direction, reversal, face_edge_slots, curve_direction, edge_slots, length_direction, arc_side, validity_tolerance, own_edge_data, no_memo, reflex_midpoint, arguments_untouched, beam_list, shared_curve, collinearity_scale_free]
